@@ -677,6 +677,14 @@ func (w *World) startFeed(l Line) string {
 	}
 	err := c.StartDCPFeed(ctx, args, cb, nil)
 	f.basePosts = w.postCount(f.collID) // sequential harness: nothing was posted while the feed registered
+	if f.dump && err == nil {
+		// a dump runs to its end on its own goroutine (and may write its checkpoint): let it finish inside this call
+		select {
+		case <-f.done:
+		case <-time.After(5 * time.Second):
+			return "r=timeout"
+		}
+	}
 	go func() {
 		<-f.done
 		f.doneClosed.Store(true)
